@@ -149,27 +149,30 @@ Proof.
   intros (H1 & H2 & H3 & H4 & H5) H. destruct l as [| |i]; cbn in H.
   - unfold mstep in H. destruct (mpc s) as [|a r] eqn:Em; [discriminate|].
     destruct a; cbn [strict_ok] in H1.
-    + injection H as <-. repeat split; simp_st; auto.
+    + injection H as <-. split; [|split; [|split; [|split]]]; simp_st; auto.
     + destruct (noq (ws s)) eqn:En; [|discriminate]. injection H as <-.
-      apply andb_true_iff in H1. destruct H1 as [_ H1]. repeat split; simp_st; auto. rewrite En. exact H1.
+      apply andb_true_iff in H1. destruct H1 as [_ H1].
+      split; [|split; [|split; [|split]]]; simp_st; auto. rewrite En. exact H1.
     + destruct (can_write s) eqn:Ec; [|discriminate]. injection H as <-.
       apply andb_true_iff in H1. destruct H1 as [H0 H1]. apply andb_true_iff in H0. destruct H0 as [_ Hn].
-      repeat split; simp_st; auto.
+      split; [|split; [|split; [|split]]]; simp_st; auto.
     + destruct (noq (ws s)) eqn:En; [|discriminate]. injection H as <-.
-      apply andb_true_iff in H1. destruct H1 as [_ H1]. repeat split; simp_st; auto. rewrite En. exact H1.
+      apply andb_true_iff in H1. destruct H1 as [_ H1].
+      split; [|split; [|split; [|split]]]; simp_st; auto. rewrite En. exact H1.
     + injection H as <-. apply andb_true_iff in H1. destruct H1 as [_ H1].
-      repeat split; simp_st; auto. discriminate.
+      split; [|split; [|split; [|split]]]; simp_st; auto. discriminate.
     + injection H as <-.
       apply andb_true_iff in H1. destruct H1 as [H1 Hr]. apply andb_true_iff in H1. destruct H1 as [H1 Hu].
       apply andb_true_iff in H1. destruct H1 as [Hh Hk]. apply andb_true_iff in Hk. destruct Hk as [Hwf Hdt].
       assert (Ev : vw s = false) by (destruct (vw s); auto; discriminate).
-      repeat split; simp_st; auto.
+      split; [|split; [|split; [|split]]]; simp_st; auto.
       * rewrite noq_app. cbn. rewrite andb_false_r. exact Hr.
       * rewrite Ev. discriminate.
-      * apply in_app_or in H. destruct H as [Hin|[<-|[]]]; [apply H4; exact Hin|]. exact Hwf.
-      * apply in_app_or in H. destruct H as [Hin|[<-|[]]]; [apply H4; exact Hin|]. exact Hdt.
-      * apply in_app_or in H. destruct H as [Hin|[<-|[]]]; [apply H4; exact Hin|]. discriminate.
-      * rewrite filter_app, app_length. cbn [filter Pind rem wp]. rewrite orb_false_r.
+      * intros w Hin. apply in_app_or in Hin. destruct Hin as [Hin|[<-|[]]]; [apply H4; exact Hin|].
+        split; [exact Hwf|]. split; [exact Hdt|]. discriminate.
+      * rewrite filter_app, app_length. cbn [filter].
+        assert (Hpn : Pind (mkW false false true sk) = usesP sk) by (unfold Pind; cbn; apply orb_false_r).
+        rewrite Hpn.
         destruct (usesP sk) eqn:Eu; cbn [length]; [|lia].
         cbn in Hu. rewrite (filter_none_len Pind (ws s)); [cbn; lia|].
         intros w Hin. destruct (W_dropped (H4 w Hin) (noq_all _ Hu w Hin)) as (_ & _ & Hp). exact Hp.
@@ -182,7 +185,7 @@ Proof.
   - destruct (nth_error (ws s) i) as [w|] eqn:En; [|discriminate].
     destruct (wstep pol s w) as [[w' o]|] eqn:Ew; [|discriminate]. injection H as <-.
     destruct (wstep_shape _ _ _ Ew) as (a & Er & Hq & _).
-    destruct (W_step (H4 w (nth_error_In' _ _ En)) Ew) as [HW' HP'].
+    destruct (@W_step pol s w w' o (H4 w (nth_error_In' _ _ En)) Ew) as [HW' HP'].
     assert (Hmono : noq (ws s) = true -> noq (upd i w' (ws s)) = true) by (intros Hn; eapply noq_upd_mono; eauto).
     split; [|split; [|split; [|split]]]; simp_st; auto.
     + eapply strict_ok_le; [exact Hmono|exact H1].
